@@ -102,24 +102,36 @@ fn gen_scenario(kind: Kind, w: &mut W) -> Scenario {
     let mut late = Vec::new();
     let mut singles = Vec::new();
     let mut real: Vec<Option<Vec<Exch>>> = Vec::new();
+    // scale swarm: most worlds are small; one in sixteen has dozens of connections, one in
+    // sixteen has one connection with a long call history, one in sixteen (C10) long streams
+    let scale = t.draw(16);
     match kind {
         Kind::C08 | Kind::C10 => {
-            let n = 1 + t.draw(if kind == Kind::C08 { 4 } else { 3 });
+            let n = if scale == 15 { 8 + t.draw(33) } else { 1 + t.draw(if kind == Kind::C08 { 4 } else { 3 }) };
+            let long_client = if scale == 14 { Some(t.draw(n)) } else { None };
             // 0: scripted clients only, 1: every client is a real zlink client, 2..3: mixed
             let real_mode = t.draw(4);
             for c in 0..n {
-                let ncalls = t.draw(6);
+                let ncalls = if long_client == Some(c) { 30 + t.draw(170) } else if scale == 15 { t.draw(4) } else { t.draw(6) };
                 let is_real = real_mode == 1 || (real_mode >= 2 && t.draw(2) == 1);
                 if is_real {
                     let calls: Vec<CallSpec> = (0..ncalls)
-                        .map(|_| if kind == Kind::C10 && t.draw(3) == 2 { gen_conforming_stream(t) } else { gen_call(t, false, true) })
+                        .map(|_| if kind == Kind::C10 && t.draw(3) == 2 { gen_conforming_stream(t, if scale == 13 { 150 } else { 4 }) } else { gen_call(t, false, true) })
                         .collect();
                     real.push(Some(gen_program(t, calls.len())));
                     clients.push(ClientSpec { cid: 10 + c as u32, calls, faults: vec![], pingpong: false, closes: t.draw(2) == 1, after_quiet: false });
                     late.push(None);
                     continue;
                 }
-                let calls = (0..ncalls).map(|_| gen_call(t, kind == Kind::C10, true)).collect();
+                let mut calls: Vec<CallSpec> = (0..ncalls).map(|_| gen_call(t, kind == Kind::C10, true)).collect();
+                if kind == Kind::C10 && scale == 13 {
+                    for cs in calls.iter_mut() {
+                        if let CallSpec::Stream { flags, .. } = cs {
+                            let extra = t.draw(150);
+                            flags.extend((0..extra).map(|_| 0u8));
+                        }
+                    }
+                }
                 let mut faults = Vec::new();
                 if kind == Kind::C10 && t.draw(5) == 4 {
                     faults.push(Fault::WriteError { kth: t.draw(6) });
@@ -130,10 +142,10 @@ fn gen_scenario(kind: Kind, w: &mut W) -> Scenario {
             }
         }
         Kind::C09 => {
-            let healthy = 1 + t.draw(3);
-            let faulty = 1 + t.draw(2);
+            let healthy = if scale == 15 { 4 + t.draw(26) } else { 1 + t.draw(3) };
+            let faulty = if scale == 15 { 1 + t.draw(8) } else { 1 + t.draw(2) };
             for c in 0..healthy {
-                let ncalls = 1 + t.draw(5);
+                let ncalls = if scale == 14 && c == 0 { 30 + t.draw(120) } else { 1 + t.draw(5) };
                 let calls = (0..ncalls).map(|_| gen_call(t, true, true)).collect();
                 clients.push(ClientSpec { cid: 10 + c as u32, calls, faults: vec![], pingpong: t.draw(3) == 2, closes: t.draw(2) == 1, after_quiet: false });
                 late.push(None);
@@ -156,7 +168,7 @@ fn gen_scenario(kind: Kind, w: &mut W) -> Scenario {
             late.push(None);
         }
         Kind::C18 => {
-            let n = 2 + t.draw(4);
+            let n = if scale == 15 { 6 + t.draw(25) } else { 2 + t.draw(4) };
             let n_flood = 1 + t.draw(n - 1);
             for c in 0..n {
                 if c < n_flood {
@@ -279,8 +291,27 @@ impl Prop for ServerProp {
 
     fn run(&self, world: &World, want_sample: bool) -> Verdict {
         let id = self.id();
-        let sc = gen_scenario(self.kind, &mut world.borrow_mut());
+        let mut sc = gen_scenario(self.kind, &mut world.borrow_mut());
         let needs_limit = sc.clients.iter().any(|c| c.faults.iter().any(|f| matches!(f, Fault::Oversize { .. })));
+        // The lowered limit must stay far above every legitimate burst in this world: the reader
+        // accumulates a pipelined burst before handing out frames (known finding F6 of C17), and
+        // a healthy client tripping over that would be C17's finding, not a C09 violation.
+        let limit = {
+            let longest: usize = sc
+                .clients
+                .iter()
+                .map(|c| c.calls.iter().enumerate().map(|(i, k)| call_frame(c.cid, i as u32, k).len() + 1).sum::<usize>())
+                .max()
+                .unwrap_or(0);
+            (C09_LIMIT.max(2 * longest) + 255) / 256 * 256
+        };
+        for c in sc.clients.iter_mut() {
+            for f in c.faults.iter_mut() {
+                if let Fault::Oversize { len, .. } = f {
+                    *len = limit + 300;
+                }
+            }
+        }
         struct Reset;
         impl Drop for Reset {
             fn drop(&mut self) {
@@ -289,7 +320,7 @@ impl Prop for ServerProp {
         }
         let _reset = Reset;
         if needs_limit {
-            verif_hooks::set_max_buffer_size(C09_LIMIT);
+            verif_hooks::set_max_buffer_size(limit);
         }
         if want_sample || world.borrow().want_sample {
             world.borrow_mut().scenario = Some(json!({"mode": sc.mode, "clients": sc.clients.iter().zip(sc.real.iter()).map(|(c, r)| {
@@ -468,6 +499,7 @@ impl Prop for ServerProp {
                     let mut wb = world_b.borrow_mut();
                     let wb = &mut *wb;
                     wb.cfg = Cfg::swarm(&mut wb.tape);
+                    wb.step_cap = world.borrow().step_cap;
                 }
                 let mut infos_b = Vec::new();
                 for spec in sc.clients.iter().filter(|c| c.faults.is_empty()) {
@@ -612,10 +644,10 @@ impl Prop for ServerProp {
     fn rule(&self) -> String {
         let common = "Each execution = the real Server::run (one task) over the stub listener with N stub client connections driven by byte-level scripts; the tape decides connection arrival, which client's bytes arrive next and in what pieces, short reads, spurious polls, suspension of the service and of transport writes, and environment events landing inside seam calls (between two iterations of the server loop). Oracle: for every healthy client the frames it received equal the sequential reference execution of the pure service for that client alone (one reply or error per non-oneway call, in order, nothing for oneway, nothing else), every frame carries the client's own id, the service handled each call exactly once in per-connection order, connection ids are distinct, and the server future is still pending. Non-trivial = a partial delivery, short read, stall, suspension or fault actually happened; distinct = distinct event-sequence hash.";
         match self.kind {
-            Kind::C08 => format!("{common} C08: 1..4 clients x 0..5 calls (plain, oneway, error-producing, slow), pipelined or ping-pong; systematic part enumerates every interleaving of arrivals, frame deliveries and closes for 12 two-client shapes."),
-            Kind::C09 => format!("{common} C09: 1..3 healthy clients, 1..2 faulty ones (garbage, truncated frame then EOF, EOF mid-burst, read error, write error from the k-th write on, unknown method, wrong parameter types, wrong-shape JSON, oversize unterminated frame against a hook-lowered limit) and a probe client that connects after everything is quiet and must be served. Systematic part: every fault kind x every position in a 3-call script x every interleaving with a healthy client. A quarter of the runs re-execute the scenario without the faulty clients under a different schedule and compare the healthy clients' output bytes."),
-            Kind::C10 => format!("{common} C10: clients mix streaming calls (0..4 items, per-item continues flags, ending or never ending) with plain calls pipelined before and behind them; stream items become available at tape-chosen moments; a write failure may hit any reply of one client (then exactly the frames before the failing write must have arrived, and everybody else is unaffected)."),
-            Kind::C18 => format!("{common} C18: 2..5 connections, flooders with 20..60 pipelined calls and single callers whose one complete call appears after a tape-chosen number of flooder replies, optional short-lived and streaming clients. Fairness monitor over the recorded service order: while the connection set is unchanged and a single caller's complete call is readable, no other connection is served twice; overall at most N x (transitions + 1) other calls are served before it."),
+            Kind::C08 => format!("{common} C08: 1..4 clients x 0..5 calls (one world in sixteen: 8..40 clients; one in sixteen: one client with 30..200 calls; a client is, by tape, either a byte-level script or a real zlink client using the low-level API, proxy methods or chains) (plain, oneway, error-producing, slow), pipelined or ping-pong; systematic part enumerates every interleaving of arrivals, frame deliveries and closes for 12 two-client shapes."),
+            Kind::C09 => format!("{common} C09: 1..3 healthy clients, 1..2 faulty ones (one world in sixteen: 4..29 healthy and 1..8 faulty; one in sixteen: a healthy client with 30..150 calls) (garbage, truncated frame then EOF, EOF mid-burst, read error, write error from the k-th write on, unknown method, wrong parameter types, wrong-shape JSON, oversize unterminated frame against a hook-lowered limit) and a probe client that connects after everything is quiet and must be served. Systematic part: every fault kind x every position in a 3-call script x every interleaving with a healthy client. A quarter of the runs re-execute the scenario without the faulty clients under a different schedule and compare the healthy clients' output bytes."),
+            Kind::C10 => format!("{common} C10: clients (scripted or real zlink clients; scale swarm as in C08, plus one world in sixteen with streams of up to 150 items) mix streaming calls (0..4 items, per-item continues flags, ending or never ending) with plain calls pipelined before and behind them; stream items become available at tape-chosen moments; a write failure may hit any reply of one client (then exactly the frames before the failing write must have arrived, and everybody else is unaffected)."),
+            Kind::C18 => format!("{common} C18: 2..5 connections (one world in sixteen: 6..30), flooders with 20..60 pipelined calls and single callers whose one complete call appears after a tape-chosen number of flooder replies, optional short-lived and streaming clients. Fairness monitor over the recorded service order: while the connection set is unchanged and a single caller's complete call is readable, no other connection is served twice; overall at most N x (transitions + 1) other calls are served before it."),
         }
     }
 
